@@ -1361,6 +1361,32 @@ def int_method_model(callee):
         'is_power_of_two': (lambda a: O(1, 'and', O(1, 'ne', a, zero),
                                         O(1, 'eq', O(bits, 'and', a, O(bits, 'sub', a, C(bits, 1))), zero)), 1),
     }
+    def bitsel(a, i):
+        return O(1, 'ne', O(bits, 'and', a, C(bits, 1 << i)), zero)
+
+    def tz(a):
+        out = C(32, bits)
+        for i in range(bits - 1, -1, -1):
+            c = bitsel(a, i)
+            m_ = O(32, 'sub', C(32, 0), O(32, 'zext', c))
+            out = O(32, 'or', O(32, 'and', C(32, i), m_), O(32, 'and', out, O(32, 'not', m_)))
+        return out
+
+    def lz(a):
+        out = C(32, bits)
+        for i in range(bits):
+            c = bitsel(a, i)
+            m_ = O(32, 'sub', C(32, 0), O(32, 'zext', c))
+            out = O(32, 'or', O(32, 'and', C(32, bits - 1 - i), m_), O(32, 'and', out, O(32, 'not', m_)))
+        return out
+
+    def popcnt(a):
+        out = C(32, 0)
+        for i in range(bits):
+            out = O(32, 'add', out, O(32, 'zext', bitsel(a, i)))
+        return out
+    if bits <= 32:
+        table.update({'trailing_zeros': (tz, 1), 'leading_zeros': (lz, 1), 'count_ones': (popcnt, 1)})
     if signed:
         table.update({
             'wrapping_abs': (lambda a: ite(isneg(a), O(bits, 'sub', zero, a), a), 1),
